@@ -34,38 +34,36 @@ fn apply(h: &Histogram, l: &LocalHistogram, m: &mut Model, op: u8, v: f64) {
     else if op == 4 { assert!(h.get_sample_count() == m.sc, "C03 get_sample_count agrees with the observations"); }
     else { assert!(h.get_sample_sum() == m.ss, "C03 get_sample_sum agrees with the observations"); }
 }
-/// a concrete operation sequence with symbolic observation values in {0,1,2,3}
-fn history(ops: &[u8]) {
-    let h = hist1();
-    let l = h.local();
-    let mut m = Model { sc: 0, ss: 0.0, sb: 0, lc: 0, ls: 0.0, lb: 0 };
-    let mut i = 0;
-    while i < ops.len() {
-        let v = any_u8_below(4) as f64;
-        apply(&h, &l, &mut m, ops[i], v);
-        i += 1;
-    }
-    std::mem::forget(l);
-    std::mem::forget(h);
+/// a concrete operation sequence (unrolled by the macro: no harness loop, so the unwind bound stays
+/// small for the retry loops inside the library) with symbolic observation values in {0,1,2,3}
+macro_rules! history {
+    ($($op:expr),*) => {{
+        let h = hist1();
+        let l = h.local();
+        let mut m = Model { sc: 0, ss: 0.0, sb: 0, lc: 0, ls: 0.0, lb: 0 };
+        $( apply(&h, &l, &mut m, $op, any_u8_below(4) as f64); )*
+        std::mem::forget(l);
+        std::mem::forget(h);
+    }};
 }
 
 /// Direct observations across three collections (both shards reused): obs, collect, obs, obs,
 /// collect, count, sum, collect.
-#[cfg_attr(kani, kani::proof, kani::unwind(10))]
+#[cfg_attr(kani, kani::proof, kani::unwind(4))]
 pub fn c03_sequence_direct_three_collects() {
-    history(&[0, 3, 0, 0, 3, 4, 5, 3]);
+    history!(0, 3, 0, 0, 3, 4, 5, 3);
 }
 /// Batches: local obs x2, collect (batch not visible), flush, collect, obs, local obs, flush,
 /// collect, collect.
-#[cfg_attr(kani, kani::proof, kani::unwind(12))]
+#[cfg_attr(kani, kani::proof, kani::unwind(4))]
 pub fn c03_sequence_batches_three_collects() {
-    history(&[1, 1, 3, 2, 3, 0, 1, 2, 3, 3]);
+    history!(1, 1, 3, 2, 3, 0, 1, 2, 3, 3);
 }
 /// Empty flush and getters between collects: flush, collect, obs, sum, collect, local obs, count,
 /// collect, flush, collect.
-#[cfg_attr(kani, kani::proof, kani::unwind(12))]
+#[cfg_attr(kani, kani::proof, kani::unwind(4))]
 pub fn c03_sequence_empty_flush_and_getters() {
-    history(&[2, 3, 0, 5, 3, 1, 4, 3, 2, 3]);
+    history!(2, 3, 0, 5, 3, 1, 4, 3, 2, 3);
 }
 
 /// A quiescent collect never waits: with no observation in flight its first compare-exchange on
